@@ -236,10 +236,10 @@ theorem px_allocTasks {s : Sys} (h : PX s) (hpr : PR s) (hs : SInv s) (hst : ST 
         rw [et] at this; simp [Tid.isIngest] at this
 
 /-- the allocation process -/
-theorem px_allocTask {s : Sys} (h : PX s) (hpr : PR s) (hs : SInv s) (hwi : WI s) {p : Proc}
+theorem px_allocTask {s : Sys} (h : PX s) (_hpr : PR s) (hs : SInv s) (hwi : WI s) {p : Proc}
     (hp : p ∈ s.procs) (ha : p.alive = true) (hmin : ∀ q ∈ s.procs, q.alive = true → p.wake ≤ q.wake)
     (orc : Oracle) {t m preds obs ing ret} (hk : p.k = .allocTask t m preds obs ing ret)
-    (hnr : ∀ e, (s.block p orc).2.2 ≠ .raised e) (hord : pollAfterSched s p.pid) :
+    (hnr : ∀ e, (s.block p orc).2.2 ≠ .raised e) :
     PX ((s.block p orc).1.updProc p.pid (fin (s.block p orc).2.1 (s.block p orc).2.2 p.wake)) := by
   have hpw := hs.pw
   obtain ⟨U, hU⟩ := hs.ci
@@ -267,8 +267,8 @@ theorem px_allocTask {s : Sys} (h : PX s) (hpr : PR s) (hs : SInv s) (hwi : WI s
     intro hw r hr
     exact hwi.ast p hp ha _ _ _ _ _ _ hk hw r (List.mem_of_find?_eq_some hr) (task?_id hr)
   rw [hb] at hnr
-  rcases allocTaskBlock_cases s hpw p.wake t m preds obs ing ret with
-    ⟨_, e, _, heq⟩ | ⟨hnr', hok, heq⟩ | ⟨_, _, heq⟩ | ⟨_, _, e, _, heq⟩ | ⟨hr, htr, hok, heq⟩
+  rcases allocTaskBlock_cases' s hpw p.wake t m preds obs ing ret with
+    ⟨_, e, _, heq⟩ | ⟨hnr', hok, heq⟩ | ⟨_, _, heq⟩ | ⟨_, _, e, _, heq⟩ | ⟨hr, ⟨htr, haft⟩, hok, heq⟩
   · rw [heq] at hnr; exact absurd rfl (hnr e)
   · -- first block
     have hfin := allocBegin_finished s.cl t m obs ing hok
@@ -381,27 +381,11 @@ theorem px_allocTask {s : Sys} (h : PX s) (hpr : PR s) (hs : SInv s) (hwi : WI s
       rcases (hfq _).mp hq with e | h1
       · right
         intro rq' f h3 h4 q hq' hqa sc pa po fn hqk
-        -- the task just reported finished: the order condition
-        have hing : ing = false := by
-          have he := hU.runOn p hp ha _ _ _ _ _ _ hk (hU.pc_pos hp ha hk hr)
-          have := hU.inv.ingRun _ he
-          simp only at this
-          rw [this, ← e]; rfl
-        subst hing
-        obtain ⟨o', c', n', eo, et⟩ := h.atObs p hp t m preds obs ret hk
-        subst eo
-        have eoo : o' = o := by
-          rw [et] at e; injection e with e1 _ _; exact e1.symm
-        subst eoo
-        have hlt := hord p (hs.pw.proc?_of_mem hp) t m preds o' ret hk hr htr q hq' hqa sc pa po fn hqk
-        obtain ⟨a, hpa⟩ := h.natWake p hp hndw
-        obtain ⟨b, hqb⟩ := h.natWake q hq' (by rw [hqk]; simp [PK.tag])
-        rw [hpa, hqb] at hlt
-        have h5 := nat_lt_succ_le hlt
+        -- F13: the task is reported finished at a time `≥ aft`, and no live process is due earlier
         rcases hT.bwd h3 with ⟨rq, h6, hk6⟩ | ⟨_, hfr⟩
-        · have h7 := hpr.aftLe _ rq f h6 (by rw [← hk6.aft]; exact h4) p hp ha
-          rw [hpa] at h7; rw [hqb]
-          grind
+        · rw [e] at h6
+          have h7 := aftReached_eq_true haft rq f h6 (by rw [← hk6.aft]; exact h4)
+          exact Rat.le_trans h7 (hmin q hq' hqa)
         · rw [hfr.aft] at h4; exact absurd h4 (by simp)
       · exact Or.inl h1
     · intro x r' h0 h1; rw [hnn x h0] at h1; exact absurd h1 (by simp)
